@@ -69,6 +69,7 @@ class Child:
         self.same_moltype_texts = []
         self.leftover = None
         self.records_at_gate = None
+        self.records_at_finalise = None
         self.n_records_before_gate = None
         self.counter_snapshot = None
         self.finalise_called = False
@@ -145,20 +146,24 @@ class Child:
             if isinstance(real, staticmethod):
                 func = real.__func__
 
-                def wrapper(system):
+                def wrapper(system, *args, **kwargs):
                     child.stage_begin(cls.__name__, system)
-                    out = func(system)
+                    try:
+                        out = func(system, *args, **kwargs)
+                    except Exception:
+                        child.depth[cls.__name__] -= 1
+                        raise
                     child.stage_end(cls.__name__, out if out is not None else system)
                     return out
                 cls.run_system = staticmethod(wrapper)
             elif isinstance(real, classmethod):
                 return
             else:
-                def wrapper(self_, system):
+                def wrapper(self_, system, *args, **kwargs):
                     name = type(self_).__name__
                     child.stage_begin(name, system, self_)
                     try:
-                        out = real(self_, system)
+                        out = real(self_, system, *args, **kwargs)
                     except Exception as err:
                         child.stage_raised(name, system, self_, err)
                         raise
@@ -222,8 +227,19 @@ class Child:
                 except Exception as err:
                     texts.append([mol.meta.get('moltype'), 'ERROR %r' % (err,)])
             child.same_moltype_texts = texts
-            return real_top(system, *args, **kwargs)
+            out = real_top(system, *args, **kwargs)
+            child.pseudo_stage('write_gmx_topology', system)
+            return out
         m2.write_gmx_topology = top_wrapper
+        # the coordinate writer is the last step before the gate: a stage boundary for late log records
+        real_write_pdb = vermouth.pdb.write_pdb
+
+        def pdb_wrapper(system, *args, **kwargs):
+            out = real_write_pdb(system, *args, **kwargs)
+            if kwargs.get('defer_writing', True):
+                child.pseudo_stage('write_pdb', system)
+            return out
+        vermouth.pdb.write_pdb = pdb_wrapper
         # C11 'rigid-generic': an arbitrary rigid motion applied in memory to what read_system returns
         mem = (self.task.get('variant') or {}).get('mem_rigid')
         if mem:
@@ -246,6 +262,7 @@ class Child:
 
         def write_wrapper(self_):
             child.finalise_called = True
+            child.records_at_finalise = len(child.recorder.records)
             child.tree_before_finalise = peval.read_tree(child.cwd, child.tmpdir)
             child.check_i1('before finalise')
             fsf = child.task.get('fs') or {}
@@ -314,6 +331,15 @@ class Child:
         self.check_i1('after stage %s' % name)
         # inject log records at this stage boundary (S7, fault kind 'warn')
         ordinal = len(self.stages)
+        for inj in self.task.get('inject_model', []):
+            at, level, count = inj
+            if at == ordinal and getattr(system, 'molecules', None):
+                # what a force field's [ warning ] / [ error ] section does: an entry the CLI logs when it writes output
+                mol = system.molecules[0]
+                for i in range(count):
+                    mol.log_entries[level]['injected model entry %d' % i].append({})
+                self.injected.append(inj)
+                self.stats.faults['warn-model:%d' % level] += count
         for inj in self.task.get('inject', []):
             at, level, type_, count = inj
             if at == ordinal:
@@ -322,6 +348,10 @@ class Child:
                     logger.log(level, 'injected by the simulator at stage {}', ordinal, type=type_)
                 self.injected.append(inj)
                 self.stats.faults['warn:%d' % level] += count
+
+    def pseudo_stage(self, name, system):
+        self.depth[name] = 1
+        self.stage_end(name, system)
 
     def exempt_paths(self):
         out = set()
